@@ -9,6 +9,7 @@
   history, through every iteration of the resume loop.
 -/
 import MitmVerif.Lemmas.C05_Map
+import MitmVerif.Lemmas.C05_Sub
 namespace MitmVerif.Props.C05
 open MitmVerif MitmVerif.C05
 
@@ -216,5 +217,43 @@ example : (ex2.step (.server [.settings (some 5) none none, .respHdr 1 true true
     [.hdr 1 true, .hdr 3 true, .hdr 5 true] := by decide
 /-- the connection closes: the open stream and both queued streams are failed -/
 example : (ex2.step .connClosed).up = [(1, .err, some 1), (3, .err, none), (5, .err, none)] := by decide
+
+/-! ### the callers' discipline, derived
+
+  `CanSubmit` / `StreamOk` are hypotheses of the theorems above about `BufferedH2Connection` alone.  Below they are
+  CONSEQUENCES: in every state `Http2Client` can reach (`Reach2`) when the HTTP layer hands over, per stream, the
+  request head first and once (`Good`), then body data, at most one set of trailers and one end of message, in this
+  order, or an error (`Good2` — the grammar of the `SendHttp` commands `HttpStream` addresses to the server, see
+  `Lemmas/C05_C03.lean` for its derivation from the model of C03).  The guard `if self.h2_conn.streams[id].state_machine
+  … is_open_for_us` in `Http2Connection._handle_event` is part of the model (`St.process`), not of the hypotheses. -/
+
+/-- every stream is well kept in every reachable state — whatever the windows, the frame size, the other streams, the
+    RST_STREAM / GOAWAY / SETTINGS / WINDOW_UPDATE the server sends, the queueing under MAX_CONCURRENT_STREAMS -/
+theorem stream_ok_reachable (σ : St) (h : Reach2 σ) (sid : Nat) : StreamOk σ.conn sid :=
+  (reach2_sub σ h).ok sid
+
+/-- whenever `Http2Client` is about to submit body data for a stream (nothing but the head and data handed over so
+    far, hyper-h2 still lets us send) `CanSubmit` holds; likewise when it is about to end the stream without trailers
+    waiting -/
+theorem can_submit_derived (σ : St) (h : Reach2 σ) (t o : Nat) (ho : alookup t σ.ours = some o)
+    (hl : σ.conn.liveS o = true) :
+    (E2 (fwOf t σ) = false → CanSubmit σ.conn o) ∧
+    (E1 (fwOf t σ) = false → ¬ σ.conn.trl.contains o = true → CanSubmit σ.conn o) := by
+  have k := (reach2_sub σ h).keeps t o ho
+  refine ⟨fun h2 => ⟨hl, (k hl).2.1 (by rw [h2]; rfl)⟩, fun h1 hnt => ?_⟩
+  exact can_of_keeps_end σ.conn o _ _ hl (fun ht => by rw [open_of_E1_hasT _ h1 ht]; rfl) k hnt
+
+/-- `buffered_bytes_conserved_connection` without its hypothesis: in every reachable state, for every stream, the
+    round robin and the per-stream flush conserve the bytes on the wire followed by the bytes still buffered -/
+theorem buffered_bytes_conserved_reachable (σ : St) (h : Reach2 σ) (sid : Nat) :
+    (∀ f, (Conn.connWindowUpdated f σ.conn).held sid = σ.conn.held sid)
+    ∧ σ.conn.connWindowUpdated'.held sid = σ.conn.held sid
+    ∧ (∀ s, (σ.conn.streamWindowUpdated s).1.held sid = σ.conn.held sid) :=
+  have ok := stream_ok_reachable σ h sid
+  ⟨fun f => (connWindowUpdated_ok f σ.conn sid ok).1, (connWindowUpdated_ok _ σ.conn sid ok).1,
+   fun s => (streamWindowUpdated_ok σ.conn s sid ok).1⟩
+
+/-- `Reach2` only restricts `Reach`: every theorem above about reachable states applies -/
+theorem reach2_is_reach (σ : St) (h : Reach2 σ) : Reach σ := reach2_reach σ h
 
 end MitmVerif.Props.C05
